@@ -201,6 +201,10 @@ impl HdlcDeframer {
                     debug!("HdlcDeframer: Captured packet: {:0>2x?}", bytes);
                     let tags = &[Tag::new(0, "packet_pos", TagValue::U64(stream_pos))];
                     if self.strip_checksum {
+                        if bytes.len() < 2 {
+                            // Too short to even hold a checksum.
+                            return Ok(State::Synced((0, Vec::with_capacity(self.max_size))));
+                        }
                         let data = &bytes[..bytes.len() - 2];
                         let got_crc = u16::from_le_bytes(bytes[bytes.len() - 2..].try_into()?);
                         let (newdata, crc, fixed) = find_right_crc(data, got_crc, self.fix_bits);
